@@ -211,3 +211,74 @@ def run_script(topo, proto, up, origin, script, tag, step_wait=0.6):
     c.close()
     o.close()
     return res
+
+
+def bulk_tunnel(topo, proto, up, origin, tag, up_bytes, down_bytes, pause_reader=0.0, chunk=65536):
+    """one tunnel moving up_bytes client->origin and down_bytes origin->client concurrently; the receiving sides start
+    reading only after `pause_reader` seconds (back-pressure through the proxy). Returns the observation record."""
+    import hashlib
+    T = ("ipv4", "127.0.0.1", origin.port)
+    c, rep = topo.open(proto, up, T)
+    rec = {"tag": tag, "proto": proto, "up": up, "sport": c.s.getsockname()[1], "established": bb.established(rep)}
+    if not rec["established"]:
+        c.close()
+        return rec
+    o = origin.accept(5.0)
+    if o is None:
+        rec["established"] = False
+        c.close()
+        return rec
+    for e in (c, o):
+        e.s.settimeout(30.0)
+    result = {}
+
+    def pump(sock_conn, stream, n):
+        off = 0
+        try:
+            while off < n:
+                k = min(chunk, n - off)
+                sock_conn.s.sendall(bb.payload(stream, k, off))
+                off += k
+        except OSError as ex:
+            result[stream + ":err"] = repr(ex)
+        sock_conn.fin()
+        result[stream + ":sent"] = off
+
+    def drain(sock_conn, stream, initial=b""):
+        time.sleep(pause_reader)
+        got = len(initial)
+        bad_at = None
+        if initial and initial != bb.payload(stream, len(initial), 0):
+            bad_at = 0
+        eof = False
+        try:
+            while True:
+                d = sock_conn.s.recv(262144)
+                if not d:
+                    eof = True
+                    break
+                if bad_at is None and d != bb.payload(stream, len(d), got):
+                    exp = bb.payload(stream, len(d), got)
+                    bad_at = got + next(i for i in range(len(d)) if d[i] != exp[i])
+                got += len(d)
+        except OSError as ex:
+            result[stream + ":rerr"] = repr(ex)
+        result[stream + ":recv"] = got
+        result[stream + ":bad_at"] = bad_at
+        result[stream + ":eof"] = eof
+    sc, so = tag + ":c2s", tag + ":s2c"
+    ths = [threading.Thread(target=pump, args=(c, sc, up_bytes)), threading.Thread(target=pump, args=(o, so, down_bytes)),
+           threading.Thread(target=drain, args=(o, sc, bytes(o.rx))), threading.Thread(target=drain, args=(c, so, bytes(c.rx)))]
+    for t in ths:
+        t.start()
+    for t in ths:
+        t.join(120)
+    rec.update({"sent": {"c2s": result.get(sc + ":sent", 0), "s2c": result.get(so + ":sent", 0)},
+                "recv": {"c2s": result.get(sc + ":recv", 0), "s2c": result.get(so + ":recv", 0)},
+                "intact": {"c2s": result.get(sc + ":bad_at") is None, "s2c": result.get(so + ":bad_at") is None},
+                "first_bad_offset": {"c2s": result.get(sc + ":bad_at"), "s2c": result.get(so + ":bad_at")},
+                "eof": {"c2s": bool(result.get(sc + ":eof")), "s2c": bool(result.get(so + ":eof"))},
+                "errors": {k: v for k, v in result.items() if k.endswith("err")}})
+    c.close()
+    o.close()
+    return rec
